@@ -1,4 +1,1054 @@
-//! C17: not built yet.
-use crate::util::Ctx;
+//! C17 — executable validation agrees with the specification.
+//! Oracle: `ExecutableDocument::parse_and_validate` is Ok iff the independent validator
+//! (`specexec.rs`, written from the October-2021 spec text) finds no violated rule; apollo-compiler's
+//! deliberate differences are the `Apollo…` rules of that validator.  Every disagreement gets a
+//! stable key (`apollo-accepts:<rule>` / `apollo-rejects:<apollo error name>`; a disagreement that
+//! disappears under exactly one known-defect emulation gets that defect's key).
+//! Correspondence streams: c17.samevalue, c17.shape, c17.subscription, c17.merge, c17.mergespec,
+//! c17.unusedfrag.
+use crate::specexec::{self as spec, Kind, Quirks};
+use crate::util::*;
+use apollo_compiler::ast::{self, Type};
+use apollo_compiler::validation::Valid;
+use apollo_compiler::{ExecutableDocument, Schema};
+use std::collections::{BTreeMap, BTreeSet, HashMap, HashSet};
 
-pub fn run(_ctx: &mut Ctx) {}
+const SCHEMA_MAIN: &str = r#"
+schema { query: Query mutation: Mutation subscription: Subscription }
+directive @tag(name: String!) repeatable on FIELD | FRAGMENT_SPREAD | INLINE_FRAGMENT | QUERY | FRAGMENT_DEFINITION
+directive @once(n: Int = 1, req: Boolean) on FIELD | QUERY | MUTATION | SUBSCRIPTION | FRAGMENT_DEFINITION | FRAGMENT_SPREAD | INLINE_FRAGMENT | VARIABLE_DEFINITION
+directive @onField(flag: Boolean!) on FIELD
+directive @onQuery on QUERY
+directive @defer(label: String, if: Boolean! = true) on FRAGMENT_SPREAD | INLINE_FRAGMENT
+scalar Any
+enum Color { RED GREEN BLUE }
+enum Size { S M L }
+input Point { x: Int! y: Int! z: Int = 0 tags: [String!] }
+input Filter { color: Color sizes: [Size!] at: Point near: [Point!] any: Any and: Filter id: ID! = "0" strict: [Int!]! = [] }
+interface Node { id: ID! }
+interface Named implements Node { id: ID! name: String nick(style: Int): String }
+interface Lonely { id: ID }
+type Dog implements Named & Node { id: ID! name: String barks: Boolean color: Color friend: Pet owner: Human nick(style: Int): String val: Int }
+type Cat implements Named & Node { id: ID! name: String meows: Boolean color: Color friend: Pet val: String nick(style: Int): String }
+type Human implements Node { id: ID! name: String! pets(first: Int = 10, filter: Filter): [Pet!] val: [Int] }
+union Pet = Dog | Cat
+type Query {
+  node(id: ID!): Node named: Named pet: Pet
+  pets(filter: Filter, colors: [Color!], limit: Int! = 5): [Pet]
+  human(id: ID!, at: Point): Human
+  search(any: Any, ids: [ID!]!, matrix: [[Int]]): [Node!]!
+  val: Float color(c: Color!): Color lonely: Lonely
+  echo(s: String, b: Boolean, f: Float, i: Int, l: [Int], n: [Int!]): String
+}
+type Mutation { rename(id: ID!, name: String!): Named del(id: ID!): Boolean }
+type Subscription { tick: Int petAdded(filter: Filter): Pet humanChanged: Human }
+"#;
+
+/// no mutation / subscription root; small types for the merging families
+const SCHEMA_SMALL: &str = r#"
+type Query { a: Int b: String o: O l: [O!]! u: U i: I f(a: Any, l: [Int], ll: [[Int!]], o: In, e: E = X, r: Int): Int g(a: Any): Int }
+interface I { a: Int g(n: Int): Int }
+type O implements I { a: Int b: String x: Int o: O g(n: Int): Int }
+type P implements I { a: Int b: Int x: Int! p: P g(n: Int): Int }
+union U = O | P
+scalar Any
+enum E { X Y }
+input In { x: Int y: [In!] r: Int! d: Int! = 1 }
+"#;
+
+const SCHEMA_SUB: &str = "type Query { q: Int } type Subscription { a: Int b: Int c: Int }";
+
+fn load(s: &str) -> Valid<Schema> { Schema::parse_and_validate(s, "schema.graphql").expect("fixed schema is valid") }
+
+// ------------------------------------------------------------------------------------------------
+// the differential oracle
+// ------------------------------------------------------------------------------------------------
+
+/// (ok, error names) of the real implementation
+fn apollo(schema: &Valid<Schema>, text: &str) -> Result<(bool, Vec<String>), String> {
+    catch(|| match ExecutableDocument::parse_and_validate(schema, text, "doc.graphql") {
+        Ok(_) => (true, vec![]),
+        Err(e) => {
+            let mut names: Vec<String> = e.errors.iter().map(|d| d.error.unstable_error_name().unwrap_or("Other").to_string()).collect();
+            names.sort();
+            names.dedup();
+            (false, names)
+        }
+    })
+}
+
+const QUIRK_KEYS: [(&str, fn(&mut Quirks)); 3] = [
+    ("apollo-accepts:AllVariableUsesDefined/custom-scalar-object", |q| q.custom_scalar_object_unchecked = true),
+    ("apollo-accepts:InputObjectFieldUniqueness/custom-scalar-object", |q| q.custom_scalar_object_duplicates = true),
+    ("apollo-accepts:AllVariableUsagesAllowed/nested-position", |q| q.nested_var_named_only = true),
+];
+
+/// returns Some(spec verdict) when the document was syntactically valid
+fn check_doc(ctx: &mut Ctx, schema: &Valid<Schema>, text: &str, family: &str) -> Option<bool> {
+    let doc = match catch(|| ast::Document::parse(text, "doc.graphql")) {
+        Ok(Ok(d)) => d,
+        Ok(Err(_)) => { ctx.stat("syntax-invalid"); return None; }
+        Err(p) => { ctx.fail("panic", text, &p); return None; }
+    };
+    let (got_ok, names) = match apollo(schema, text) {
+        Ok(x) => x,
+        Err(p) => { ctx.fail("panic", text, &p); return None; }
+    };
+    let out = spec::validate(schema, &doc, Quirks::default());
+    if out.exhausted { ctx.stat("spec-budget-exhausted"); return None; }
+    let want_ok = out.violations.is_empty();
+    ctx.stat(if want_ok { "spec-valid" } else { "spec-invalid" });
+    ctx.stat(&format!("family:{family}"));
+    for r in &out.violations { ctx.stat(&format!("rule:{r}")); }
+    if want_ok || out.violations.len() == 1 { ctx.nontrivial(text); }
+    if got_ok == want_ok { return Some(want_ok); }
+    // classify: which single known-defect emulation (or pair) explains it?
+    let mut key: Option<Vec<&str>> = None;
+    'search: for size in 1..=2 {
+        for i in 0..QUIRK_KEYS.len() {
+            for j in i..QUIRK_KEYS.len() {
+                if (size == 1) != (i == j) { continue; }
+                let mut q = Quirks::default();
+                (QUIRK_KEYS[i].1)(&mut q);
+                (QUIRK_KEYS[j].1)(&mut q);
+                if spec::validate(schema, &doc, q).violations.is_empty() == got_ok {
+                    key = Some(if i == j { vec![QUIRK_KEYS[i].0] } else { vec![QUIRK_KEYS[i].0, QUIRK_KEYS[j].0] });
+                    break 'search;
+                }
+            }
+        }
+    }
+    let fallback = if got_ok { format!("apollo-accepts:{}", out.violations.iter().next().unwrap()) } else { format!("apollo-rejects:{}", names.first().map(String::as_str).unwrap_or("none")) };
+    let keys: Vec<&str> = key.unwrap_or_else(|| vec![fallback.as_str()]);
+    let what = if got_ok {
+        format!("apollo-compiler validates the document; the specification rejects it: {:?}", out.violations)
+    } else {
+        format!("apollo-compiler rejects the document ({names:?}); the specification accepts it")
+    };
+    for k in keys { ctx.fail(k, text.trim(), &what); }
+    Some(want_ok)
+}
+
+// ------------------------------------------------------------------------------------------------
+// grammar-directed generator with single-fault injection
+// ------------------------------------------------------------------------------------------------
+
+#[derive(Clone, Copy, PartialEq, Eq, Debug)]
+enum Fault {
+    None, OpNameDup, AnonPlusNamed, SubTwoFields, SubSameFieldTwice, SubAliasSameKey, SubTypename, SubSkip, UnknownField,
+    MergeArgConflict, MergeAliasConflict, MergeListLen, MergeSame, LeafWithSub, CompositeNoSub, UnknownArg, DupArg,
+    DropRequiredArg, NullRequiredArg, FragDup, FragUnknownType, FragOnScalar, InlineOnScalar, InlineUnknownType, FragUnused,
+    SpreadUndefined, FragCycle, SpreadImpossible, ValWrongKind, ValUnknownEnum, ValUnknownInputField, ValDupInputField,
+    ValDropRequiredInputField, ValNullNonNull, ValListForNonList, ValIntRange, DirUnknown, DirWrongLocation,
+    DirDupNonRepeatable, DirDupRepeatable, VarDup, VarOutputType, VarUndefined, VarUnused, VarNullableToNonNull,
+    VarDefaultToNonNull, VarNullDefaultToNonNull, VarListMismatch, VarNestedNullable, TypeSystemDef, UndefinedRoot, DeferRoot, DeferLabelDup,
+}
+const FAULTS: [Fault; 52] = [
+    Fault::OpNameDup, Fault::AnonPlusNamed, Fault::SubTwoFields, Fault::SubSameFieldTwice, Fault::SubAliasSameKey, Fault::SubTypename, Fault::SubSkip,
+    Fault::UnknownField, Fault::MergeArgConflict, Fault::MergeAliasConflict, Fault::MergeListLen, Fault::MergeSame, Fault::LeafWithSub,
+    Fault::CompositeNoSub, Fault::UnknownArg, Fault::DupArg, Fault::DropRequiredArg, Fault::NullRequiredArg, Fault::FragDup,
+    Fault::FragUnknownType, Fault::FragOnScalar, Fault::InlineOnScalar, Fault::InlineUnknownType, Fault::FragUnused,
+    Fault::SpreadUndefined, Fault::FragCycle, Fault::SpreadImpossible, Fault::ValWrongKind, Fault::ValUnknownEnum,
+    Fault::ValUnknownInputField, Fault::ValDupInputField, Fault::ValDropRequiredInputField, Fault::ValNullNonNull,
+    Fault::ValListForNonList, Fault::ValIntRange, Fault::DirUnknown, Fault::DirWrongLocation, Fault::DirDupNonRepeatable,
+    Fault::DirDupRepeatable, Fault::VarDup, Fault::VarOutputType, Fault::VarUndefined, Fault::VarUnused, Fault::VarNullableToNonNull,
+    Fault::VarDefaultToNonNull, Fault::VarNullDefaultToNonNull, Fault::VarListMismatch, Fault::VarNestedNullable, Fault::TypeSystemDef, Fault::UndefinedRoot,
+    Fault::DeferRoot, Fault::DeferLabelDup,
+];
+
+struct FragRec { name: String, cond: String, text: String, vars: Vec<(String, String)>, spreads: Vec<String> }
+
+struct Gen<'a> {
+    r: &'a mut Rng,
+    schema: &'a Schema,
+    composites: Vec<String>,
+    fault: Fault,
+    target: u32,
+    seen: u32,
+    applied: bool,
+    // current definition
+    in_fragment: bool,
+    op_vars: Vec<(String, String, Option<String>)>,
+    cur_frag_vars: Vec<(String, String)>,
+    cur_spreads: Vec<String>,
+    frags: Vec<FragRec>,
+    counter: usize,
+    max_depth: usize,
+    allow_vars: bool,
+}
+
+fn ty_text(t: &Type) -> String { t.to_string() }
+fn mangle(t: &str) -> String { t.chars().map(|c| match c { '[' => 'L', ']' => 'l', '!' => 'N', c => c }).collect() }
+
+impl<'a> Gen<'a> {
+    fn new(r: &'a mut Rng, schema: &'a Schema, fault: Fault) -> Self {
+        let composites = schema.types.iter().filter(|(n, _)| !n.starts_with("__") && spec::kind_of(schema, n).map_or(false, |k| k.composite())).map(|(n, _)| n.to_string()).collect();
+        let target = 1 + r.below(3) as u32;
+        Gen { r, schema, composites, fault, target, seen: 0, applied: false, in_fragment: false, op_vars: vec![], cur_frag_vars: vec![], cur_spreads: vec![], frags: vec![], counter: 0, max_depth: 3, allow_vars: true }
+    }
+    fn hit(&mut self, f: Fault) -> bool {
+        if self.fault != f || self.applied { return false; }
+        self.seen += 1;
+        if self.seen >= self.target { self.applied = true; return true; }
+        false
+    }
+    fn fresh(&mut self, p: &str) -> String { self.counter += 1; format!("{p}{}", self.counter) }
+
+    fn overlapping(&mut self, parent: &str) -> Vec<String> {
+        let pp = spec::possible_types(self.schema, parent);
+        self.composites.iter().filter(|c| c.as_str() == parent || spec::possible_types(self.schema, c).intersection(&pp).next().is_some()).cloned().collect()
+    }
+
+    fn variable(&mut self, loc: &Type, has_default: bool, nested: bool) -> Option<String> {
+        if !self.allow_vars { return None; }
+        let lt = ty_text(loc);
+        if self.in_fragment {
+            let name = format!("g{}", mangle(&lt));
+            if !self.cur_frag_vars.iter().any(|(n, _)| *n == name) { self.cur_frag_vars.push((name.clone(), lt)); }
+            return Some(format!("${name}"));
+        }
+        let name = self.fresh("v");
+        let non_null = spec::is_non_null(loc);
+        let bare = lt.trim_end_matches('!').to_string();
+        let mut decl_ty = lt.clone();
+        let mut default: Option<String> = None;
+        if nested && non_null && self.hit(Fault::VarNestedNullable) { decl_ty = bare.clone(); }
+        else if !nested && non_null && !has_default && self.hit(Fault::VarNullableToNonNull) { decl_ty = bare.clone(); }
+        else if !nested && non_null && !has_default && matches!(loc, Type::NonNullNamed(_)) && self.hit(Fault::VarDefaultToNonNull) {
+            decl_ty = bare.clone();
+            default = self.literal_default(loc);
+            if default.is_none() { decl_ty = lt.clone(); }
+        }
+        else if !nested && non_null && !has_default && self.hit(Fault::VarNullDefaultToNonNull) { decl_ty = bare.clone(); default = Some("null".into()); }
+        else if self.hit(Fault::VarListMismatch) { decl_ty = if bare.starts_with('[') { spec::named(loc).to_string() } else { format!("[{bare}]") }; }
+        else if !non_null && self.r.chance(1, 3) { decl_ty = format!("{lt}!"); }
+        else if non_null && has_default && self.r.chance(1, 2) { decl_ty = bare; }
+        self.op_vars.push((name.clone(), decl_ty, default));
+        Some(format!("${name}"))
+    }
+
+    fn literal_default(&mut self, t: &Type) -> Option<String> {
+        match spec::kind_of(self.schema, spec::named(t))? {
+            Kind::Scalar => Some(match spec::named(t) { "Int" => "3", "Float" => "1.5", "String" => "\"d\"", "Boolean" => "true", _ => "\"id\"" }.to_string()),
+            Kind::Enum => if let Some(apollo_compiler::schema::ExtendedType::Enum(e)) = self.schema.types.get(spec::named(t)) { e.values.keys().next().map(|k| k.to_string()) } else { None },
+            _ => None,
+        }
+    }
+
+    fn value(&mut self, t: &Type, has_default: bool, depth: usize, nested: bool) -> String {
+        if self.r.chance(1, 7) { if let Some(v) = self.variable(t, has_default, nested) { return v; } }
+        let non_null = spec::is_non_null(t);
+        if non_null && self.hit(Fault::ValNullNonNull) { return "null".into(); }
+        if !non_null && self.r.chance(1, 12) { return "null".into(); }
+        match t {
+            Type::List(i) | Type::NonNullList(i) => {
+                if self.r.chance(1, 5) { return self.value(i, false, depth, nested); }
+                let n = self.r.below(3);
+                let items: Vec<String> = (0..n).map(|_| self.value(i, false, depth + 1, true)).collect();
+                format!("[{}]", items.join(", "))
+            }
+            Type::Named(n) | Type::NonNullNamed(n) => {
+                let n = n.as_str();
+                let kind = spec::kind_of(self.schema, n).unwrap_or(Kind::CustomScalar);
+                if kind != Kind::CustomScalar && self.hit(Fault::ValListForNonList) { return "[1]".replace('1', &self.value(t, false, depth + 1, true)); }
+                if kind != Kind::CustomScalar && self.hit(Fault::ValWrongKind) {
+                    return match (kind, n) { (Kind::Scalar, "Int") => "\"1\"", (Kind::Scalar, "Float") => "\"1.5\"", (Kind::Scalar, "String") => "1", (Kind::Scalar, "Boolean") => "1", (Kind::Scalar, _) => "1.5", (Kind::Enum, _) => "\"RED\"", _ => "7" }.to_string();
+                }
+                match kind {
+                    Kind::Scalar => match n {
+                        "Int" => { if self.hit(Fault::ValIntRange) { return (*self.r.pick(&["2147483648", "-2147483649", "99999999999999999999"])).to_string(); } (*self.r.pick(&["0", "1", "-5", "2147483647", "-2147483648", "42"])).to_string() }
+                        "Float" => (*self.r.pick(&["1.5", "2", "1e3", "-0.25", "0"])).to_string(),
+                        "String" => (*self.r.pick(&["\"a\"", "\"\"", "\"b c\""])).to_string(),
+                        "Boolean" => (*self.r.pick(&["true", "false"])).to_string(),
+                        _ => (*self.r.pick(&["\"id1\"", "7", "\"\""])).to_string(),
+                    },
+                    Kind::Enum => {
+                        if self.hit(Fault::ValUnknownEnum) { return "PURPLE".into(); }
+                        let Some(apollo_compiler::schema::ExtendedType::Enum(e)) = self.schema.types.get(n) else { return "X".into() };
+                        let vals: Vec<String> = e.values.keys().map(|k| k.to_string()).collect();
+                        self.r.pick(&vals).clone()
+                    }
+                    Kind::InputObject => {
+                        let Some(apollo_compiler::schema::ExtendedType::InputObject(def)) = self.schema.types.get(n) else { return "{}".into() };
+                        let def = def.clone();
+                        let mut parts: Vec<String> = vec![];
+                        for (fname, fd) in &def.fields {
+                            let required = spec::is_non_null(&fd.ty) && fd.default_value.is_none();
+                            if required && self.hit(Fault::ValDropRequiredInputField) { continue; }
+                            let include = required || (depth < 2 && self.r.chance(1, 3));
+                            if !include { continue; }
+                            let v = self.value(&fd.ty, fd.default_value.is_some(), depth + 1, true);
+                            parts.push(format!("{fname}: {v}"));
+                            if self.hit(Fault::ValDupInputField) { let v2 = self.value(&fd.ty, fd.default_value.is_some(), depth + 1, true); parts.push(format!("{fname}: {v2}")); }
+                        }
+                        if self.hit(Fault::ValUnknownInputField) { parts.push("nope: 1".into()); }
+                        if self.r.chance(1, 2) { parts.reverse(); }
+                        format!("{{{}}}", parts.join(", "))
+                    }
+                    _ => (*self.r.pick(&["1", "\"s\"", "{a: 1, b: [true, null]}", "[1, {b: 2.5}]", "SOME", "true", "[]", "{}"])).to_string(),
+                }
+            }
+        }
+    }
+
+    fn args(&mut self, defs: &[spec::ArgSig]) -> String {
+        let mut parts: Vec<String> = vec![];
+        for d in defs {
+            let required = spec::is_non_null(&d.ty) && !d.has_default;
+            if required && self.hit(Fault::DropRequiredArg) { continue; }
+            if required && self.hit(Fault::NullRequiredArg) { parts.push(format!("{}: null", d.name)); continue; }
+            if !(required || self.r.chance(1, 2)) { continue; }
+            let v = self.value(&d.ty, d.has_default, 0, false);
+            parts.push(format!("{}: {v}", d.name));
+            if self.hit(Fault::DupArg) { let v2 = self.value(&d.ty, d.has_default, 0, false); parts.push(format!("{}: {v2}", d.name)); }
+        }
+        if self.hit(Fault::UnknownArg) { parts.push("bogus: 1".into()); }
+        if parts.is_empty() { String::new() } else { format!("({})", parts.join(", ")) }
+    }
+
+    fn directives(&mut self, loc: &str) -> String {
+        let mut out = String::new();
+        if self.hit(Fault::DirUnknown) { out.push_str(" @nope"); }
+        if loc != "QUERY" && self.hit(Fault::DirWrongLocation) { out.push_str(" @onQuery"); }
+        if self.hit(Fault::DirDupNonRepeatable) { out.push_str(" @once @once(n: 2)"); }
+        if self.hit(Fault::DirDupRepeatable) { out.push_str(" @tag(name: \"a\") @tag(name: \"a\")"); }
+        if !self.r.chance(1, 6) { return out; }
+        let has = |n: &str| self.schema.directive_definitions.contains_key(n);
+        match self.r.below(5) {
+            0 if matches!(loc, "FIELD" | "FRAGMENT_SPREAD" | "INLINE_FRAGMENT") => {
+                let cond = self.value(&Type::NonNullNamed(apollo_compiler::name!("Boolean")), false, 0, false);
+                out.push_str(&format!(" @{}(if: {cond})", if self.r.chance(1, 2) { "skip" } else { "include" }));
+            }
+            1 if has("tag") && loc != "VARIABLE_DEFINITION" && loc != "MUTATION" && loc != "SUBSCRIPTION" => out.push_str(" @tag(name: \"t\")"),
+            2 if has("once") => { let n = self.value(&Type::Named(apollo_compiler::name!("Int")), true, 0, false); out.push_str(&format!(" @once(n: {n})")); }
+            3 if has("onField") && loc == "FIELD" => out.push_str(" @onField(flag: true)"),
+            _ => {}
+        }
+        out
+    }
+
+    fn selection_set(&mut self, parent: &str, depth: usize) -> String {
+        let n = 1 + self.r.below(3);
+        let mut sels: Vec<String> = vec![];
+        let mut keys: HashSet<String> = HashSet::new();
+        for _ in 0..n {
+            let k = self.r.below(20);
+            if k < 14 || depth >= self.max_depth { self.field(parent, depth, &mut sels, &mut keys); }
+            else if k < 17 { self.inline(parent, depth, &mut sels); }
+            else { self.spread(parent, depth, &mut sels); }
+        }
+        format!("{{ {} }}", sels.join(" "))
+    }
+
+    fn field(&mut self, parent: &str, depth: usize, sels: &mut Vec<String>, keys: &mut HashSet<String>) {
+        let mut names: Vec<String> = match self.schema.types.get(parent) {
+            Some(apollo_compiler::schema::ExtendedType::Object(o)) => o.fields.keys().map(|k| k.to_string()).collect(),
+            Some(apollo_compiler::schema::ExtendedType::Interface(o)) => o.fields.keys().map(|k| k.to_string()).collect(),
+            _ => vec![],
+        };
+        if names.is_empty() || self.r.chance(1, 10) { names = vec!["__typename".into()]; }
+        let mut name = self.r.pick(&names).clone();
+        if self.hit(Fault::UnknownField) { name = "nosuch".into(); }
+        let Some(sig) = spec::field_sig(self.schema, parent, &name) else { sels.push(name); return };
+        let inner = spec::named(&sig.ty).to_string();
+        let composite = spec::kind_of(self.schema, &inner).map_or(false, |k| k.composite());
+        let args = self.args(&sig.args);
+        let mut alias = String::new();
+        let mut key = name.clone();
+        if keys.contains(&key) || self.r.chance(1, 8) || (!args.is_empty() && self.r.chance(2, 3)) { key = self.fresh("k"); alias = format!("{key}: "); }
+        keys.insert(key.clone());
+        let dirs = self.directives("FIELD");
+        let sub = if composite {
+            if self.hit(Fault::CompositeNoSub) { String::new() }
+            else if depth + 1 >= self.max_depth { " { __typename }".to_string() } else { format!(" {}", self.selection_set(&inner, depth + 1)) }
+        } else if self.hit(Fault::LeafWithSub) { " { x }".to_string() } else { String::new() };
+        sels.push(format!("{alias}{name}{args}{dirs}{sub}"));
+        // merging faults: emit a second selection next to this one
+        if !composite {
+            if self.hit(Fault::MergeSame) { sels.push(format!("{alias}{name}{args}")); }
+            if let Some(a) = sig.args.first() {
+                if self.hit(Fault::MergeArgConflict) {
+                    let was = self.allow_vars; self.allow_vars = false;
+                    let v1 = self.value(&a.ty, a.has_default, 0, false);
+                    self.allow_vars = was;
+                    let other = if v1 == "null" { "1".to_string() } else { "null".to_string() };
+                    sels.pop();
+                    sels.push(format!("{alias}{name}({}: {v1})", a.name));
+                    sels.push(format!("{alias}{name}({}: {other})", a.name));
+                }
+            }
+            if let Some(a) = sig.args.iter().find(|a| matches!(&a.ty, Type::List(_)) && spec::named(&a.ty) == "Int") {
+                if self.hit(Fault::MergeListLen) {
+                    sels.pop();
+                    sels.push(format!("{alias}{name}({}: [1])", a.name));
+                    sels.push(format!("{alias}{name}({}: [1, 2])", a.name));
+                }
+            }
+            if self.hit(Fault::MergeAliasConflict) {
+                // a different leaf field of the same parent under the same response key
+                if let Some(other) = names.iter().find(|o| **o != name && spec::field_sig(self.schema, parent, o).map_or(false, |s| s.args.iter().all(|a| !spec::is_non_null(&a.ty) || a.has_default) && spec::kind_of(self.schema, spec::named(&s.ty)).map_or(false, |k| k.leaf()))) {
+                    sels.push(format!("{key}: {other}"));
+                }
+            }
+        }
+    }
+
+    fn inline(&mut self, parent: &str, depth: usize, sels: &mut Vec<String>) {
+        let over = self.overlapping(parent);
+        let mut cond: Option<String> = if self.r.chance(1, 4) || over.is_empty() { None } else { Some(self.r.pick(&over).clone()) };
+        if self.hit(Fault::InlineOnScalar) { cond = Some("Int".into()); }
+        if self.hit(Fault::InlineUnknownType) { cond = Some("Nowhere".into()); }
+        if self.hit(Fault::SpreadImpossible) {
+            if let Some(c) = self.composites.clone().iter().find(|c| !over.contains(c)) { cond = Some(c.clone()); }
+        }
+        let dirs = self.directives("INLINE_FRAGMENT");
+        let inner_parent = cond.clone().unwrap_or_else(|| parent.to_string());
+        let body = if spec::kind_of(self.schema, &inner_parent).map_or(false, |k| k.composite()) { self.selection_set(&inner_parent, depth + 1) } else { "{ __typename }".to_string() };
+        sels.push(format!("...{}{dirs} {body}", cond.map(|c| format!(" on {c}")).unwrap_or_default()));
+    }
+
+    fn spread(&mut self, parent: &str, depth: usize, sels: &mut Vec<String>) {
+        if self.hit(Fault::SpreadUndefined) { sels.push("...Missing".into()); return; }
+        let over = self.overlapping(parent);
+        // reuse an existing compatible fragment sometimes
+        let reuse: Vec<String> = self.frags.iter().filter(|f| over.contains(&f.cond)).map(|f| f.name.clone()).collect();
+        let dirs = self.directives("FRAGMENT_SPREAD");
+        if !reuse.is_empty() && self.r.chance(1, 2) {
+            let n = self.r.pick(&reuse).clone();
+            self.cur_spreads.push(n.clone());
+            sels.push(format!("...{n}{dirs}"));
+            return;
+        }
+        if over.is_empty() { return; }
+        let mut cond = self.r.pick(&over).clone();
+        let name = self.fresh("F");
+        let mut body_parent = Some(cond.clone());
+        if self.hit(Fault::FragUnknownType) { cond = "Nowhere".into(); body_parent = None; }
+        if self.hit(Fault::FragOnScalar) { cond = "Color".into(); body_parent = None; }
+        if self.hit(Fault::SpreadImpossible) {
+            if let Some(c) = self.composites.clone().iter().find(|c| !over.contains(c)) { cond = c.clone(); body_parent = Some(c.clone()); }
+        }
+        // generate the fragment body in fragment mode
+        let saved = (self.in_fragment, std::mem::take(&mut self.cur_frag_vars), std::mem::take(&mut self.cur_spreads));
+        self.in_fragment = true;
+        let fdirs = self.directives("FRAGMENT_DEFINITION");
+        let mut body = match &body_parent { Some(p) => self.selection_set(p, depth + 1), None => "{ __typename }".to_string() };
+        if self.hit(Fault::FragCycle) { body = format!("{{ __typename ...{name} }}"); self.cur_spreads.push(name.clone()); }
+        let rec = FragRec { name: name.clone(), cond: cond.clone(), text: format!("fragment {name} on {cond}{fdirs} {body}"), vars: std::mem::take(&mut self.cur_frag_vars), spreads: std::mem::take(&mut self.cur_spreads) };
+        self.in_fragment = saved.0; self.cur_frag_vars = saved.1; self.cur_spreads = saved.2;
+        self.frags.push(rec);
+        self.cur_spreads.push(name.clone());
+        sels.push(format!("...{name}{dirs}"));
+    }
+
+    fn operation(&mut self, kind: &str, name: Option<&str>) -> String {
+        self.op_vars.clear();
+        self.cur_spreads.clear();
+        let root = match kind { "query" => self.schema.schema_definition.query.as_ref(), "mutation" => self.schema.schema_definition.mutation.as_ref(), _ => self.schema.schema_definition.subscription.as_ref() }.map(|c| c.name.to_string());
+        let loc = match kind { "query" => "QUERY", "mutation" => "MUTATION", _ => "SUBSCRIPTION" };
+        let dirs = self.directives(loc);
+        let body = match (&root, kind) {
+            (None, _) => "{ anything }".to_string(),
+            (Some(r), "subscription") => self.subscription_body(r),
+            (Some(r), _) => {
+                let mut b = self.selection_set(r, 0);
+                if kind == "mutation" && self.hit(Fault::DeferRoot) { b = format!("{{ ... @defer {b} }}"); }
+                b
+            }
+        };
+        // variables used by reachable fragments
+        let mut reach: Vec<String> = vec![];
+        let mut stack = self.cur_spreads.clone();
+        while let Some(n) = stack.pop() {
+            if reach.contains(&n) { continue; }
+            if let Some(f) = self.frags.iter().find(|f| f.name == n) { stack.extend(f.spreads.iter().cloned()); }
+            reach.push(n);
+        }
+        let mut decls: Vec<String> = vec![];
+        let mut declared: HashSet<String> = HashSet::new();
+        for (n, t, d) in self.op_vars.clone() {
+            let dv = d.map(|d| format!(" = {d}")).unwrap_or_default();
+            decls.push(format!("${n}: {t}{dv}"));
+            declared.insert(n);
+        }
+        for fname in &reach {
+            let Some(f) = self.frags.iter().find(|f| f.name == *fname) else { continue };
+            for (n, t) in f.vars.clone() { if declared.insert(n.clone()) { decls.push(format!("${n}: {t}")); } }
+        }
+        if self.hit(Fault::VarUnused) { decls.push("$unused: Int".into()); }
+        if self.hit(Fault::VarOutputType) { decls.push("$out: Query".into()); }
+        if !decls.is_empty() && self.hit(Fault::VarDup) { let d = decls[0].clone(); decls.push(d); }
+        let mut body = body;
+        if self.hit(Fault::VarUndefined) { body = format!("{{ ... {body} undef: __typename @skip(if: $nope) }}"); }
+        if kind == "subscription" && body.contains("@skip(if: $nope)") { /* also a conditional root selection: still a single disagreement-free rejection */ }
+        let vars = if decls.is_empty() { String::new() } else { format!("({})", decls.join(", ")) };
+        match name { None if vars.is_empty() && dirs.is_empty() && kind == "query" => body, None => format!("{kind}{vars}{dirs} {body}"), Some(n) => format!("{kind} {n}{vars}{dirs} {body}") }
+    }
+
+    fn subscription_body(&mut self, root: &str) -> String {
+        let fields: Vec<String> = match self.schema.types.get(root) { Some(apollo_compiler::schema::ExtendedType::Object(o)) => o.fields.keys().map(|k| k.to_string()).collect(), _ => vec![] };
+        let pick = self.r.pick(&fields).clone();
+        let one = |g: &mut Self, name: &str, alias: &str| -> String {
+            let sig = spec::field_sig(g.schema, root, name).unwrap();
+            let inner = spec::named(&sig.ty).to_string();
+            let args = g.args(&sig.args);
+            let sub = if spec::kind_of(g.schema, &inner).map_or(false, |k| k.composite()) { format!(" {}", g.selection_set(&inner, 1)) } else { String::new() };
+            format!("{alias}{name}{args}{sub}")
+        };
+        let first = one(self, &pick, "");
+        let mut sels = vec![first.clone()];
+        if self.hit(Fault::SubTwoFields) { let other = fields.iter().find(|f| **f != pick).cloned().unwrap_or(pick.clone()); let s = one(self, &other, "second: "); sels.push(s); }
+        if self.hit(Fault::SubSameFieldTwice) { sels.push(first.clone()); }
+        if self.hit(Fault::SubAliasSameKey) { sels = vec![format!("x: {first}"), format!("... on {root} {{ x: {first} }}")]; }
+        if self.hit(Fault::SubTypename) { if self.r.chance(1, 2) { sels = vec!["__typename".into()]; } else { sels.push("__typename".into()); } }
+        if self.hit(Fault::SubSkip) { sels[0] = format!("{} @skip(if: false)", sels[0].split(' ').next().unwrap().trim_end_matches('{')); if spec::kind_of(self.schema, spec::named(&spec::field_sig(self.schema, root, &pick).unwrap().ty)).map_or(false, |k| k.composite()) { sels[0] = format!("... @include(if: true) {{ {first} }}"); } }
+        match self.r.below(6) {
+            0 => format!("{{ ... on {root} {{ {} }} }}", sels.join(" ")),
+            1 => { let n = self.fresh("S"); let body = format!("{{ {} }}", sels.join(" ")); self.frags.push(FragRec { name: n.clone(), cond: root.to_string(), text: format!("fragment {n} on {root} {body}"), vars: vec![], spreads: vec![] }); self.cur_spreads.push(n.clone()); format!("{{ ...{n} }}") }
+            _ => format!("{{ {} }}", sels.join(" ")),
+        }
+    }
+
+    fn document(&mut self, has_mut: bool, has_sub: bool) -> String {
+        let mut defs: Vec<String> = vec![];
+        let kinds: Vec<&str> = { let mut k = vec!["query", "query", "query", "query"]; if has_mut { k.push("mutation"); } if has_sub { k.push("subscription"); k.push("subscription"); } k };
+        let forced: Option<&str> = match self.fault {
+            Fault::SubTwoFields | Fault::SubSameFieldTwice | Fault::SubAliasSameKey | Fault::SubTypename | Fault::SubSkip => Some("subscription"),
+            Fault::DeferRoot => Some("mutation"),
+            _ => None,
+        };
+        let n_ops = if self.r.chance(1, 4) { 2 } else { 1 };
+        for i in 0..n_ops {
+            let mut kind = forced.unwrap_or(*self.r.pick(&kinds));
+            if self.hit(Fault::UndefinedRoot) { kind = if has_mut { "query" } else if self.r.chance(1, 2) { "mutation" } else { "subscription" }; }
+            if (kind == "subscription" && !has_sub) || (kind == "mutation" && !has_mut) { if self.fault != Fault::UndefinedRoot { kind = "query"; } }
+            let name = if n_ops == 1 && self.r.chance(1, 2) { None } else { Some(format!("Op{i}")) };
+            let mut name = name;
+            if i == 1 && self.hit(Fault::OpNameDup) { name = Some("Op0".into()); }
+            if i == 1 && self.hit(Fault::AnonPlusNamed) { name = None; }
+            let op = self.operation(kind, name.as_deref());
+            defs.push(op);
+        }
+        if self.fault == Fault::OpNameDup && !self.applied { defs.push("query Op0 { __typename }".into()); if n_ops == 1 && !defs[0].contains("Op0") { defs.push("query Op0 { __typename }".into()); } self.applied = true; }
+        if self.fault == Fault::AnonPlusNamed && !self.applied { defs.push("{ __typename }".into()); self.applied = true; }
+        if self.hit(Fault::FragUnused) { defs.push(format!("fragment Unused on {} {{ __typename }}", self.composites[0])); }
+        if self.hit(Fault::TypeSystemDef) { defs.push("type Extra { a: Int }".into()); }
+        if self.hit(Fault::DeferLabelDup) { defs.push("query DL { ... @defer(label: \"x\") { __typename } ... @defer(label: \"x\") { a: __typename } }".into()); if n_ops == 1 && !defs[0].starts_with("query Op") && !defs[0].starts_with("mutation Op") && !defs[0].starts_with("subscription Op") { defs.remove(0); } }
+        let frags: Vec<String> = self.frags.iter().map(|f| f.text.clone()).collect();
+        if !frags.is_empty() && self.hit(Fault::FragDup) { defs.push(frags[0].clone()); }
+        defs.extend(frags);
+        defs.join("\n")
+    }
+}
+
+// ------------------------------------------------------------------------------------------------
+// value encoding shared with Driver/D17.lean
+// ------------------------------------------------------------------------------------------------
+#[derive(Clone, Debug, PartialEq)]
+enum Val { Null, Enum(String), Var(String), Str(String), Float(String), Int(String), Bool(bool), List(Vec<Val>), Obj(Vec<(String, Val)>) }
+fn val_text(v: &Val) -> String {
+    match v {
+        Val::Null => "null".into(), Val::Enum(e) => e.clone(), Val::Var(n) => format!("${n}"), Val::Str(s) => format!("\"{s}\""),
+        Val::Float(f) => f.clone(), Val::Int(i) => i.clone(), Val::Bool(b) => b.to_string(),
+        Val::List(l) => format!("[{}]", l.iter().map(val_text).collect::<Vec<_>>().join(", ")),
+        Val::Obj(o) => format!("{{{}}}", o.iter().map(|(k, v)| format!("{k}: {}", val_text(v))).collect::<Vec<_>>().join(", ")),
+    }
+}
+fn val_enc(v: &Val, out: &mut String) {
+    match v {
+        Val::Null => out.push('n'), Val::Enum(e) => { out.push('e'); out.push_str(e); out.push(';') }
+        Val::Var(n) => { out.push('v'); out.push_str(n); out.push(';') }
+        Val::Str(s) => { out.push('s'); out.push_str(s); out.push(';') }
+        Val::Float(s) => { out.push('f'); out.push_str(s); out.push(';') }
+        Val::Int(s) => { out.push('i'); out.push_str(s); out.push(';') }
+        Val::Bool(b) => out.push(if *b { 't' } else { 'F' }),
+        Val::List(l) => { out.push('l'); for x in l { val_enc(x, out); } out.push('.'); }
+        Val::Obj(o) => { out.push('o'); for (k, x) in o { out.push('k'); out.push_str(k); out.push(';'); val_enc(x, out); } out.push('.'); }
+    }
+}
+fn atoms() -> Vec<Val> {
+    vec![Val::Null, Val::Int("1".into()), Val::Int("2".into()), Val::Float("1.0".into()), Val::Str("a".into()), Val::Str("1".into()), Val::Bool(true), Val::Bool(false), Val::Enum("A".into()), Val::Enum("a".into()), Val::Var("v".into()), Val::Var("w".into())]
+}
+fn rand_val(r: &mut Rng, depth: usize) -> Val {
+    let k = r.below(if depth >= 3 { 6 } else { 10 });
+    match k {
+        0..=5 => r.pick(&atoms()).clone(),
+        6 | 7 => { let n = r.below(4); Val::List((0..n).map(|_| rand_val(r, depth + 1)).collect()) }
+        _ => { let n = r.below(4); Val::Obj((0..n).map(|_| ((*r.pick(&["x", "y", "z"])).to_string(), rand_val(r, depth + 1))).collect()) }
+    }
+}
+/// a small perturbation, so that near-equal pairs are frequent
+fn perturb(r: &mut Rng, v: &Val) -> Val {
+    match v {
+        Val::List(l) if !l.is_empty() => match r.below(5) {
+            0 => { let mut l = l.clone(); l.pop(); Val::List(l) }
+            1 => { let mut l = l.clone(); l.push(rand_val(r, 3)); Val::List(l) }
+            2 => { let mut l = l.clone(); l.reverse(); Val::List(l) }
+            _ => { let mut l = l.clone(); let i = r.below(l.len()); l[i] = perturb(r, &l[i]); Val::List(l) }
+        },
+        Val::Obj(o) if !o.is_empty() => match r.below(6) {
+            0 => { let mut o = o.clone(); o.reverse(); Val::Obj(o) }
+            1 => { let mut o = o.clone(); o.rotate_left(1); Val::Obj(o) }
+            2 => { let mut o = o.clone(); let i = r.below(o.len()); let d = o[i].clone(); o.push(d); Val::Obj(o) }
+            3 => { let mut o = o.clone(); let i = r.below(o.len()); o[i].0 = (*r.pick(&["x", "y", "z"])).to_string(); Val::Obj(o) }
+            _ => { let mut o = o.clone(); let i = r.below(o.len()); o[i].1 = perturb(r, &o[i].1); Val::Obj(o) }
+        },
+        v => if r.chance(1, 2) { v.clone() } else { rand_val(r, 2) },
+    }
+}
+
+fn samevalue_case(ctx: &mut Ctx, schema: &Valid<Schema>, a: &Val, b: &Val) {
+    // field_a is the first selection, field_b the second: same_value(&other_arg.value, &arg.value) = same_value(b, a)
+    let text = format!("query($v: Any, $w: Any) {{ f(a: {}) f(a: {}) used: g(a: [$v, $w]) }}", val_text(a), val_text(b));
+    let out = match apollo(schema, &text) {
+        Err(p) => { ctx.fail("panic", &text, &p); "panic".to_string() }
+        Ok((true, _)) => "same".to_string(),
+        Ok((false, names)) => if names == vec!["ConflictingFieldArgument".to_string()] { "differ".to_string() } else { format!("other:{}", names.join(",")) },
+    };
+    let (mut ea, mut eb) = (String::new(), String::new());
+    val_enc(a, &mut ea); val_enc(b, &mut eb);
+    if out == "same" && a != b { ctx.nontrivial(&text); }
+    ctx.stat(&format!("samevalue:{}", if out.starts_with("other") { "other" } else { &out }));
+    ctx.case("c17.samevalue", &[enc(&ea), enc(&eb)], &out);
+    // duplicate keys in an object literal are outside the domain of argument comparison (rule 5.6.3 rejects them)
+    fn dup(v: &Val) -> bool { match v { Val::List(l) => l.iter().any(dup), Val::Obj(o) => o.iter().enumerate().any(|(i, (k, x))| dup(x) || o[..i].iter().any(|(k2, _)| k2 == k)), _ => false } }
+    if !dup(a) && !dup(b) { check_doc(ctx, schema, &text, "samevalue"); }
+}
+
+// ------------------------------------------------------------------------------------------------
+// streams
+// ------------------------------------------------------------------------------------------------
+fn stream_samevalue(ctx: &mut Ctx, small: &Valid<Schema>) {
+    let at = atoms();
+    let mut small_vals: Vec<Val> = at.clone();
+    let base: Vec<Val> = vec![Val::Int("1".into()), Val::Int("2".into()), Val::Null, Val::Var("v".into())];
+    small_vals.push(Val::List(vec![]));
+    small_vals.push(Val::Obj(vec![]));
+    for x in &base { small_vals.push(Val::List(vec![x.clone()])); small_vals.push(Val::Obj(vec![("x".into(), x.clone())])); small_vals.push(Val::Obj(vec![("y".into(), x.clone())])); }
+    for x in &base[..2] { for y in &base[..3] {
+        small_vals.push(Val::List(vec![x.clone(), y.clone()]));
+        small_vals.push(Val::Obj(vec![("x".into(), x.clone()), ("y".into(), y.clone())]));
+        small_vals.push(Val::Obj(vec![("y".into(), y.clone()), ("x".into(), x.clone())]));
+        small_vals.push(Val::Obj(vec![("x".into(), x.clone()), ("x".into(), y.clone())]));
+    } }
+    small_vals.push(Val::List(vec![Val::List(vec![Val::Int("1".into())]), Val::List(vec![])]));
+    small_vals.push(Val::List(vec![Val::List(vec![Val::Int("1".into()), Val::Int("2".into())])]));
+    small_vals.push(Val::List(vec![Val::List(vec![Val::Int("1".into())])]));
+    for a in &small_vals { for b in &small_vals { samevalue_case(ctx, small, a, b); } }
+    let n = if ctx.thorough { 20_000 } else { 1_500 };
+    for _ in 0..n {
+        let a = rand_val(&mut ctx.rng, 0);
+        let b = if ctx.rng.chance(2, 3) { perturb(&mut ctx.rng, &a) } else { rand_val(&mut ctx.rng, 0) };
+        samevalue_case(ctx, small, &a, &b);
+    }
+}
+
+fn enc_ty(t: &Type) -> String {
+    match t { Type::Named(n) => format!("n{n};"), Type::NonNullNamed(n) => format!("N{n};"), Type::List(i) => format!("l{}", enc_ty(i)), Type::NonNullList(i) => format!("L{}", enc_ty(i)) }
+}
+
+fn stream_shape(ctx: &mut Ctx) {
+    // named types of every kind; the Lean driver knows this table
+    let names = ["Int", "String", "E", "S", "O", "I", "U"];
+    let mk = |n: &str| apollo_compiler::Name::new(n).unwrap();
+    let mut level: Vec<Type> = names.iter().flat_map(|n| [Type::Named(mk(n)), Type::NonNullNamed(mk(n))]).collect();
+    let mut all = level.clone();
+    let depth = if ctx.thorough { 2 } else { 1 };
+    for _ in 0..depth {
+        let next: Vec<Type> = level.iter().flat_map(|t| [Type::List(Box::new(t.clone())), Type::NonNullList(Box::new(t.clone()))]).collect();
+        all.extend(next.iter().cloned());
+        level = next;
+    }
+    let mut pairs: Vec<(Type, Type)> = vec![];
+    for a in &all { for b in &all { pairs.push((a.clone(), b.clone())); } }
+    // deeper random pairs (mostly equal wrappers)
+    let extra = if ctx.thorough { 3000 } else { 400 };
+    for _ in 0..extra {
+        let d = 2 + ctx.rng.below(4);
+        let mut a = ctx.rng.pick(&all[..14]).clone();
+        let mut b = if ctx.rng.chance(1, 2) { a.clone() } else { ctx.rng.pick(&all[..14]).clone() };
+        for _ in 0..d {
+            let nn = ctx.rng.chance(1, 2);
+            a = if nn { Type::NonNullList(Box::new(a)) } else { Type::List(Box::new(a)) };
+            let flip = ctx.rng.chance(1, 8);
+            let drop = ctx.rng.chance(1, 16);
+            if !drop { b = if nn != flip { Type::NonNullList(Box::new(b)) } else { Type::List(Box::new(b)) }; }
+        }
+        pairs.push((a, b));
+    }
+    for (a, b) in pairs {
+        let schema_text = format!("type Query {{ n: AB }} union AB = A | B type A {{ f: {a} }} type B {{ f: {b} }} enum E {{ X }} scalar S type O {{ z: Int }} interface I {{ z: Int }} union U = O");
+        let schema = match catch(|| Schema::parse_and_validate(&schema_text, "s.graphql")) { Ok(Ok(s)) => s, _ => { ctx.stat("shape:schema-invalid"); continue } };
+        let sub = |t: &Type| if matches!(spec::named(t), "O" | "I" | "U") { " { __typename }" } else { "" };
+        let text = format!("{{ n {{ ... on A {{ f{} }} ... on B {{ f{} }} }} }}", sub(&a), sub(&b));
+        let out = match apollo(&schema, &text) {
+            Err(p) => { ctx.fail("panic", &text, &p); "panic".to_string() }
+            Ok((true, _)) => "ok".to_string(),
+            Ok((false, names)) => if names == vec!["ConflictingFieldType".to_string()] { "conflict".to_string() } else { format!("other:{}", names.join(",")) },
+        };
+        ctx.stat(&format!("shape:{}", if out.starts_with("other") { "other" } else { &out }));
+        if out == "ok" && a != b { ctx.nontrivial(&format!("{a}/{b}")); }
+        ctx.case("c17.shape", &[enc(&enc_ty(&a)), enc(&enc_ty(&b))], &out);
+        // oracle on the same case (the spec validator's SameResponseShape)
+        if let Some(true) = check_doc(ctx, &schema, &text, "shape") { ctx.stat("shape:spec-ok"); }
+    }
+}
+
+/// root selections of a subscription: fields (alias, name, @skip?), inline fragments, spreads
+#[derive(Clone, Debug)]
+enum RSel { Field(String, String, bool), Inline(bool, bool, Vec<RSel>), Spread(usize, bool) }
+fn rsel_text(s: &[RSel], out: &mut String) {
+    out.push_str("{ ");
+    for x in s {
+        match x {
+            RSel::Field(a, n, c) => { if a != n { out.push_str(&format!("{a}: ")); } out.push_str(n); if *c { out.push_str(" @skip(if: false)"); } out.push(' '); }
+            RSel::Inline(tc, c, sub) => { out.push_str("... "); if *tc { out.push_str("on Subscription "); } if *c { out.push_str("@include(if: true) "); } rsel_text(sub, out); }
+            RSel::Spread(j, c) => { out.push_str(&format!("...F{j} ")); if *c { out.push_str("@skip(if: false) "); } }
+        }
+    }
+    out.push_str("} ");
+}
+fn rsel_enc(s: &[RSel], out: &mut String) {
+    for x in s {
+        match x {
+            RSel::Field(a, n, c) => { out.push(if *c { 'c' } else { 'f' }); out.push_str(a); out.push(','); out.push_str(n); out.push(';'); }
+            RSel::Inline(_, c, sub) => { out.push(if *c { 'j' } else { 'i' }); rsel_enc(sub, out); }
+            RSel::Spread(j, c) => { out.push(if *c { 't' } else { 's' }); out.push_str(&j.to_string()); out.push(';'); }
+        }
+    }
+    out.push('.');
+}
+fn rsel_gen(r: &mut Rng, depth: usize, nfrag: usize, budget: &mut usize) -> Vec<RSel> {
+    let n = if depth == 0 { 1 + r.below(3) } else { r.below(3) };
+    let mut out = vec![];
+    for _ in 0..n {
+        if *budget == 0 { break; }
+        *budget -= 1;
+        let cond = r.chance(1, 12);
+        match r.below(10) {
+            0..=4 => { let name = (*r.pick(&["a", "a", "b", "c", "__typename"])).to_string(); let alias = if r.chance(1, 4) { (*r.pick(&["a", "b", "x"])).to_string() } else { name.clone() }; out.push(RSel::Field(alias, name, cond)); }
+            5 | 6 if depth < 3 => out.push(RSel::Inline(r.chance(1, 2), cond, rsel_gen(r, depth + 1, nfrag, budget))),
+            _ => if nfrag > 0 { out.push(RSel::Spread(r.below(nfrag), cond)) } else { out.push(RSel::Field("a".into(), "a".into(), cond)) },
+        }
+    }
+    out
+}
+fn rsel_used(frags: &[Vec<RSel>], s: &[RSel], seen: &mut Vec<bool>) {
+    for x in s { match x {
+        RSel::Inline(_, _, sub) => rsel_used(frags, sub, seen),
+        RSel::Spread(j, _) => if !seen[*j] { seen[*j] = true; rsel_used(frags, &frags[*j].clone(), seen); },
+        _ => {}
+    } }
+}
+
+fn subscription_case(ctx: &mut Ctx, schema: &Valid<Schema>, frags: &[Vec<RSel>], op: &[RSel]) {
+    let mut text = String::from("subscription ");
+    rsel_text(op, &mut text);
+    let mut seen = vec![false; frags.len()];
+    rsel_used(frags, op, &mut seen);
+    for (j, f) in frags.iter().enumerate() { if seen[j] { text.push_str(&format!("fragment F{j} on Subscription ")); rsel_text(f, &mut text); } }
+    if text.contains("{ }") { return; }
+    let names = match apollo(schema, &text) { Err(p) => { ctx.fail("panic", &text, &p); return } Ok((_, n)) => n };
+    if names.iter().any(|n| n == "RecursiveFragmentDefinition") { ctx.stat("subscription:cyclic-skipped"); return; }
+    let has = |n: &str| names.iter().any(|x| x == n);
+    let out = format!("multiple={} introspection={} conditional={}", has("SubscriptionUsesMultipleFields"), has("SubscriptionUsesIntrospection"), has("SubscriptionUsesConditionalSelection"));
+    let mut e = String::new();
+    for f in frags { rsel_enc(f, &mut e); e.push('|'); }
+    let mut o = String::new();
+    rsel_enc(op, &mut o);
+    ctx.stat(&format!("subscription:{out}"));
+    ctx.nontrivial(&text);
+    ctx.case("c17.subscription", &[enc(&e), enc(&o)], &out);
+    check_doc(ctx, schema, &text, "subscription");
+}
+
+fn stream_subscription(ctx: &mut Ctx, schema: &Valid<Schema>) {
+    let f = |a: &str, n: &str| RSel::Field(a.into(), n.into(), false);
+    // regression inputs first
+    subscription_case(ctx, schema, &[], &[f("a", "a"), f("a", "a")]);
+    subscription_case(ctx, schema, &[], &[f("a", "a")]);
+    subscription_case(ctx, schema, &[], &[f("a", "a"), f("b", "b")]);
+    subscription_case(ctx, schema, &[], &[f("x", "a"), RSel::Inline(true, false, vec![f("x", "a")])]);
+    subscription_case(ctx, schema, &[vec![f("a", "a")]], &[RSel::Spread(0, false), RSel::Spread(0, false)]);
+    subscription_case(ctx, schema, &[vec![f("a", "a")]], &[RSel::Spread(0, false), f("a", "a")]);
+    subscription_case(ctx, schema, &[], &[f("__typename", "__typename")]);
+    subscription_case(ctx, schema, &[], &[RSel::Field("a".into(), "a".into(), true)]);
+    let n = if ctx.thorough { 40_000 } else { 3_000 };
+    for _ in 0..n {
+        let nf = ctx.rng.below(3);
+        let mut frags = vec![];
+        for j in 0..nf { let mut b = 4; let mut fr = rsel_gen(&mut ctx.rng, 1, j, &mut b); if fr.is_empty() { fr.push(f("a", "a")); } frags.push(fr); }
+        let mut b = 6;
+        let op = rsel_gen(&mut ctx.rng, 0, nf, &mut b);
+        if op.is_empty() { continue; }
+        subscription_case(ctx, schema, &frags, &op);
+    }
+}
+
+// abstract field trees for the merging model -------------------------------------------------------
+struct AField { key: String, parent: String, parent_is_object: bool, name_args: String, shape: String, subs: Vec<AField> }
+
+fn canon_value(v: &ast::Value) -> String {
+    match v {
+        ast::Value::Object(o) => { let mut f: Vec<String> = o.iter().map(|(k, v)| format!("{k}:{}", canon_value(v))).collect(); f.sort(); format!("{{{}}}", f.join(",")) }
+        ast::Value::List(l) => format!("[{}]", l.iter().map(|v| canon_value(v)).collect::<Vec<_>>().join(",")),
+        v => v.to_string(),
+    }
+}
+fn shape_of(schema: &Schema, t: &Type) -> String {
+    match t {
+        Type::List(i) => format!("[{}]", shape_of(schema, i)),
+        Type::NonNullList(i) => format!("[{}]!", shape_of(schema, i)),
+        Type::Named(n) => if spec::kind_of(schema, n).map_or(false, |k| k.composite()) { "composite".into() } else { n.to_string() },
+        Type::NonNullNamed(n) => if spec::kind_of(schema, n).map_or(false, |k| k.composite()) { "composite!".into() } else { format!("{n}!") },
+    }
+}
+fn flatten(schema: &Schema, frags: &HashMap<String, &ast::FragmentDefinition>, parent: &str, sels: &[ast::Selection], visited: &mut HashSet<String>, out: &mut Vec<AField>) -> Option<()> {
+    for s in sels {
+        match s {
+            ast::Selection::Field(f) => {
+                let sig = spec::field_sig(schema, parent, f.name.as_str())?;
+                let mut args: Vec<String> = f.arguments.iter().map(|a| format!("{}={}", a.name, canon_value(&a.value))).collect();
+                args.sort();
+                let inner = spec::named(&sig.ty).to_string();
+                let mut subs = vec![];
+                flatten(schema, frags, &inner, &f.selection_set, &mut HashSet::new(), &mut subs)?;
+                out.push(AField { key: spec::rkey(f).to_string(), parent: parent.to_string(), parent_is_object: spec::kind_of(schema, parent) == Some(Kind::Object), name_args: format!("{} {}", f.name, args.join(",")), shape: shape_of(schema, &sig.ty), subs });
+            }
+            ast::Selection::InlineFragment(i) => { let p = i.type_condition.as_ref().map(|t| t.as_str()).unwrap_or(parent); flatten(schema, frags, p, &i.selection_set, visited, out)?; }
+            ast::Selection::FragmentSpread(sp) => if visited.insert(sp.fragment_name.to_string()) {
+                let fd = frags.get(sp.fragment_name.as_str())?;
+                flatten(schema, frags, fd.type_condition.as_str(), &fd.selection_set, visited, out)?;
+            },
+        }
+    }
+    Some(())
+}
+fn afield_enc(fs: &[AField], out: &mut String) {
+    for f in fs {
+        out.push('<');
+        out.push_str(&format!("{}|{}|{}|{}|{}|", f.key, f.parent, if f.parent_is_object { 'O' } else { 'A' }, f.name_args, f.shape));
+        afield_enc(&f.subs, out);
+        out.push('>');
+    }
+}
+
+fn merge_case(ctx: &mut Ctx, schema: &Valid<Schema>, text: &str) {
+    let Ok(Ok(doc)) = catch(|| ast::Document::parse(text, "d.graphql")) else { ctx.stat("merge:syntax"); return };
+    let names = match apollo(schema, text) { Err(p) => { ctx.fail("panic", text, &p); return } Ok((_, n)) => n };
+    let conflict = names.iter().any(|n| n.starts_with("ConflictingField"));
+    let mut frags: HashMap<String, &ast::FragmentDefinition> = HashMap::new();
+    let mut root: Option<&ast::OperationDefinition> = None;
+    for d in &doc.definitions { match d { ast::Definition::FragmentDefinition(f) => { frags.entry(f.name.to_string()).or_insert(f); } ast::Definition::OperationDefinition(o) => root = Some(o), _ => {} } }
+    let Some(op) = root else { return };
+    let mut fields = vec![];
+    if flatten(schema, &frags, "Query", &op.selection_set, &mut HashSet::new(), &mut fields).is_none() { ctx.stat("merge:not-flattenable"); check_doc(ctx, schema, text, "merge"); return; }
+    let mut e = String::new();
+    afield_enc(&fields, &mut e);
+    ctx.stat(if conflict { "merge:conflict" } else { "merge:ok" });
+    if e.len() < 6000 {
+        ctx.case("c17.merge", &[enc(&e)], if conflict { "conflict" } else { "ok" });
+        let spec_ok = spec::root_fields_can_merge(schema, &doc);
+        ctx.case("c17.mergespec", &[enc(&e)], if spec_ok { "ok" } else { "conflict" });
+    }
+    ctx.nontrivial(text);
+    check_doc(ctx, schema, text, "merge");
+}
+
+fn stream_merge(ctx: &mut Ctx, schema: &Valid<Schema>) {
+    let frag_defs = "fragment FO on O { x: a o { x: b } } fragment FP on P { x: b o: p { x: a } } fragment FI on I { x: a g(n: 1) } fragment FG on I { g(n: 2) }";
+    let pool: Vec<&str> = vec![
+        "a", "x: a", "__typename", "x: __typename", "g(n: 1)", "g(n: 2)", "g",
+        "... on O { a }", "... on O { x: a }", "... on O { x: b }", "... on O { x }", "... on O { b }", "... on O { a: b }", "... on O { g(n: 1) }", "... on O { g(n: 2) }",
+        "... on O { o { x: a } }", "... on O { o { x: b } }", "... on O { o { o { x: a } } }", "... on O { o { o { x: b } } }", "... on O { o { g(n: 1) } }", "... on O { o { g(n: 2) } }",
+        "... on P { a }", "... on P { x: a }", "... on P { x: b }", "... on P { x }", "... on P { b }", "... on P { g(n: 2) }", "... on P { x: g(n: 1) }",
+        "... on P { o: p { x: a } }", "... on P { o: p { x: b } }", "... on P { o: p { x } }", "... on P { o: p { o: p { x: b } } }", "... on P { o: a }",
+        "... on I { x: a }", "... on I { g(n: 2) }", "... on I { ... on O { x: b } }", "... on I { ... on P { x: b } }",
+        "...FO", "...FP", "...FI", "...FG", "... { x: a }",
+    ];
+    let used_frags = |body: &str| -> String {
+        let mut out = String::new();
+        for part in frag_defs.split("fragment ").filter(|p| !p.is_empty()) { let name = part.split(' ').next().unwrap(); if body.contains(&format!("...{name}")) { out.push_str("fragment "); out.push_str(part); } }
+        out
+    };
+    let run = |ctx: &mut Ctx, items: &[&str]| {
+        let body = items.join(" ");
+        let text = format!("{{ i {{ {body} }} }} {}", used_frags(&body));
+        merge_case(ctx, schema, &text);
+    };
+    // regression inputs
+    for t in ["{ f(l: [1]) f(l: [1, 2]) }", "{ f(l: [1, 2]) f(l: [1]) }", "{ f(l: [1]) f(l: [2]) }", "{ f(l: [1, 2]) f(l: [1, 2]) }", "{ f(o: {x: 1, r: 1}) f(o: {r: 1, x: 1}) }", "{ f(a: {x: 1, x: 2}) f(a: {x: 1, y: 2}) }", "{ o { a } o { b } }", "{ o { x: a } o { x: b } }", "{ l { x: a } l { x: b } }", "{ x: a x: b }", "{ u { ... on O { b } ... on P { b } } }", "{ u { ... on O { x } ... on P { x } } }", "{ u { ... on O { y: a } ... on P { y: b } } }"] { merge_case(ctx, schema, t); }
+    for a in &pool { for b in &pool { run(ctx, &[a, b]); } }
+    let n = if ctx.thorough { 25_000 } else { 2_500 };
+    for _ in 0..n {
+        let k = 3 + ctx.rng.below(2);
+        let items: Vec<&str> = (0..k).map(|_| *ctx.rng.pick(&pool)).collect();
+        run(ctx, &items);
+    }
+}
+
+// unused fragments: spreads graph -> number of unused fragments
+fn stream_unused(ctx: &mut Ctx, schema: &Valid<Schema>) {
+    let n = if ctx.thorough { 20_000 } else { 2_000 };
+    for it in 0..n {
+        let nf = 1 + ctx.rng.below(5);
+        // acyclic by construction: Fi only spreads Fj with j > i (cycles are another rule); the operation spreads any
+        let mut edges: Vec<Vec<usize>> = vec![];
+        for i in 0..nf { let mut e = vec![]; for j in i + 1..nf { if ctx.rng.chance(1, 3) { e.push(j); if ctx.rng.chance(1, 5) { e.push(j); } } } edges.push(e); }
+        let mut op: Vec<usize> = vec![];
+        for j in 0..nf { if ctx.rng.chance(1, 3) { op.push(j); } }
+        if it % 7 == 0 { op.clear(); }
+        let nest = |ctx: &mut Ctx, s: String| match ctx.rng.below(4) { 0 => format!("o {{ {s} }}"), 1 => format!("... on O {{ {s} }}"), 2 => format!("... {{ o {{ {s} }} }}"), _ => s };
+        let mut text = String::from("{ o { a ");
+        for j in &op { let s = nest(ctx, format!("...F{j}")); text.push_str(&s); text.push(' '); }
+        text.push_str("} } ");
+        for (i, e) in edges.iter().enumerate() {
+            text.push_str(&format!("fragment F{i} on O {{ a "));
+            for j in e { let s = nest(ctx, format!("...F{j}")); text.push_str(&s); text.push(' '); }
+            text.push_str("} ");
+        }
+        let errs = match catch(|| ExecutableDocument::parse_and_validate(schema, &text, "d.graphql")) {
+            Err(p) => { ctx.fail("panic", &text, &p); continue }
+            Ok(Ok(_)) => 0,
+            Ok(Err(e)) => e.errors.iter().filter(|d| d.error.unstable_error_name() == Some("UnusedFragment")).count(),
+        };
+        let enc_list = |v: &[usize]| v.iter().map(|j| j.to_string()).collect::<Vec<_>>().join(",");
+        let g = edges.iter().map(|e| enc_list(e)).collect::<Vec<_>>().join("|");
+        ctx.stat(&format!("unused:{}", errs.min(3)));
+        ctx.case("c17.unusedfrag", &[format!("={}", enc_list(&op)), format!("={g}|")], &errs.to_string());
+        check_doc(ctx, schema, &text, "unusedfrag");
+    }
+}
+
+// the repository's own diagnostics/ok corpus, split into schema + executable parts ----------------
+fn corpus(ctx: &mut Ctx) {
+    let base = std::env::var("VERIF_REPO").unwrap_or_else(|_| "/repo".into());
+    for dir in ["diagnostics", "ok"] {
+        let d = format!("{base}/crates/apollo-compiler/test_data/{dir}");
+        let Ok(rd) = std::fs::read_dir(&d) else { continue };
+        let mut files: Vec<_> = rd.filter_map(|e| e.ok()).map(|e| e.path()).filter(|p| p.extension().map_or(false, |x| x == "graphql")).collect();
+        files.sort();
+        for p in files {
+            let Ok(src) = std::fs::read_to_string(&p) else { continue };
+            let Ok(Ok(doc)) = catch(|| ast::Document::parse(src.clone(), "c.graphql")) else { ctx.stat("corpus:syntax"); continue };
+            let (mut sdoc, mut edoc) = (ast::Document::new(), ast::Document::new());
+            for def in &doc.definitions {
+                if matches!(def, ast::Definition::OperationDefinition(_) | ast::Definition::FragmentDefinition(_)) { edoc.definitions.push(def.clone()); } else { sdoc.definitions.push(def.clone()); }
+            }
+            if edoc.definitions.is_empty() || sdoc.definitions.is_empty() { ctx.stat("corpus:one-sided"); continue; }
+            let Ok(Ok(schema)) = catch(|| Schema::parse_and_validate(sdoc.to_string(), "s.graphql")) else { ctx.stat("corpus:schema-invalid"); continue };
+            ctx.stat("corpus:used");
+            check_doc(ctx, &schema, &edoc.to_string(), "corpus");
+        }
+    }
+}
+
+const REGRESSION_MAIN: &[&str] = &[
+    // the probes recorded in the property
+    "{ echo(l: [1]) echo(l: [1, 2]) }",
+    "subscription { tick tick }",
+    "{ pets(filter: {color: RED, color: BLUE}) { __typename } }",
+    "query($v: Int) { echo(n: [$v]) }",
+    "query($v: Int) { human(id: 1, at: {x: $v, y: 1}) { id } }",
+    "query($v: Int = 1) { echo(n: [$v]) }",
+    // valid neighbours
+    "{ echo(l: [1, 2]) echo(l: [1, 2]) }",
+    "subscription { tick }",
+    "query($v: Int!) { echo(n: [$v]) }",
+    "query($v: Int = 1) { color(c: RED) echo(i: $v) }",
+    "query($c: Color = RED) { color(c: $c) }",
+    "query($c: Color = null) { color(c: $c) }",
+    "{ lonely { ... on Lonely { id } } }",
+    "{ pet { ... on Lonely { id } } }",
+    "mutation { del(id: 1) }",
+    "mutation { ... @defer { del(id: 1) } }",
+    "subscription { humanChanged { ... @defer { id } } }",
+    "subscription { humanChanged { ... @defer(if: false) { id } } }",
+    "subscription($b: Boolean!) { humanChanged { ... @defer(if: $b) { id } } }",
+    "{ pet { ... @defer(label: \"a\") { __typename } ... @defer(label: \"a\") { __typename } } }",
+    "query($l: String) { pet { ... @defer(label: $l) { __typename } } }",
+    "subscription { tick @skip(if: false) }",
+    "subscription { ... on Subscription { tick } ...S } fragment S on Subscription { tick }",
+    "subscription { __typename }",
+    "{ search(ids: \"a\", matrix: 1) { id } }",
+    "{ search(ids: [], matrix: [[1], null, [null]]) { id } }",
+    "{ search(ids: [null]) { id } }",
+    "{ echo(i: 2147483648) }",
+    "{ echo(f: 1) }",
+    "{ echo(f: 1e999) }",
+    "{ node(id: 99999999999999999999) { id } }",
+    "{ search(ids: [], any: {a: $nope}) { id } }",
+    "query($v: Int) { search(ids: [], any: [$v]) { id } }",
+    "{ __schema { types { name } } __type(name: \"Dog\") { name } }",
+    "{ pet { __schema { types { name } } } }",
+    "{ named { nick(style: 1) ... on Dog { nick(style: 2) } } }",
+    "{ pet { ... on Dog { nick(style: 1) } ... on Cat { nick(style: 2) } } }",
+    "{ pet { ... on Dog { val } ... on Cat { val } } }",
+    "{ pet { ... on Dog { v: val } ... on Cat { v: meows } } }",
+    "query A { val } query A { val }",
+    "query A { val } { val }",
+    "{ val } fragment F on Query { val }",
+    "{ ...F } fragment F on Query { ...G } fragment G on Query { ...F }",
+    "query($a: Int, $a: Int) { echo(i: $a) }",
+    "query($a: Query) { val }",
+    "query($a: Int) { val }",
+    "{ echo(i: $a) }",
+    "query @onField(flag: true) { val }",
+    "{ val @once @once }",
+    "{ val @tag(name: \"a\") @tag(name: \"b\") }",
+    "{ val @nope }",
+    "{ val { x } }",
+    "{ pet }",
+    "{ human(id: null) { id } }",
+    "{ human { id } }",
+    "{ human(id: 1, id: 2) { id } }",
+    "{ human(id: 1, foo: 2) { id } }",
+    "{ human(id: 1, at: {x: 1}) { id } }",
+    "{ human(id: 1, at: {x: 1, y: null}) { id } }",
+    "{ human(id: 1, at: {x: 1, y: 2, w: 3}) { id } }",
+    "{ human(id: 1, at: [{x: 1, y: 2}]) { id } }",
+    "{ pets(filter: {near: {x: 1, y: 2}}) { __typename } }",
+    "{ pets(filter: {strict: null}) { __typename } }",
+    "{ color(c: \"RED\") }",
+    "{ color(c: PURPLE) }",
+    "type T { a: Int } { val }",
+];
+
+pub fn run(ctx: &mut Ctx) {
+    let main = load(SCHEMA_MAIN);
+    let small = load(SCHEMA_SMALL);
+    let sub = load(SCHEMA_SUB);
+    for t in REGRESSION_MAIN { check_doc(ctx, &main, t, "regression"); }
+    for t in ["{ f(a: {x: 1, x: 1}) }", "{ f(a: [{y: {x: 1, x: 2}}]) }", "{ f(a: {x: 1, y: 1}) }", "mutation { a }", "subscription { a }", "query { a } mutation M { a }", "{ f(l: [1]) f(l: [1, 2]) }", "{ f(o: {r: 1, r: 2}) }", "{ f(o: {r: 1, y: [{r: 1, r: 1}]}) }", "query($v: Int) { f(ll: [[$v]]) }", "query($v: Int) { f(o: {r: $v}) }", "query($v: Int) { f(o: {r: 1, d: $v}) }", "query($v: [Int]) { f(o: {r: 1, x: $v}) }"] {
+        check_doc(ctx, &small, t, "regression");
+    }
+    corpus(ctx);
+    stream_samevalue(ctx, &small);
+    stream_shape(ctx);
+    stream_subscription(ctx, &sub);
+    stream_merge(ctx, &small);
+    stream_unused(ctx, &small);
+    // grammar-directed documents, unfaulted and with one rule-targeted fault
+    let n = if ctx.thorough { 120_000 } else { 9_000 };
+    let mut nfault = 0usize;
+    for i in 0..n {
+        let fault = if i % 3 == 0 { Fault::None } else { nfault += 1; FAULTS[nfault % FAULTS.len()] };
+        let needs_main = matches!(fault, Fault::SubTwoFields | Fault::SubSameFieldTwice | Fault::SubAliasSameKey | Fault::SubTypename | Fault::SubSkip | Fault::DeferRoot | Fault::DeferLabelDup
+            | Fault::DirUnknown | Fault::DirWrongLocation | Fault::DirDupNonRepeatable | Fault::DirDupRepeatable | Fault::ValUnknownEnum);
+        let use_small = fault == Fault::UndefinedRoot || (!needs_main && i % 5 == 4);
+        let schema = if use_small { &small } else { &main };
+        let mut text: Option<String> = None;
+        for _attempt in 0..6 {
+            let mut g = Gen::new(&mut ctx.rng, schema, fault);
+            if use_small { g.max_depth = 2; }
+            let t = g.document(!use_small, !use_small);
+            if fault == Fault::None || g.applied { text = Some(t); break; }
+        }
+        let Some(text) = text else { ctx.stat(&format!("fault-not-applied:{fault:?}")); continue };
+        ctx.stat(&format!("fault:{fault:?}"));
+        let verdict = check_doc(ctx, schema, &text, if fault == Fault::None { "generated" } else { "generated-fault" });
+        if fault == Fault::None { match verdict { Some(true) => ctx.stat("unfaulted-valid"), Some(false) => ctx.stat("unfaulted-invalid"), None => {} } }
+        else { match verdict { Some(true) => ctx.stat(&format!("faulted-valid:{fault:?}")), Some(false) => ctx.stat("faulted-invalid"), None => {} } }
+    }
+    let _ = (BTreeMap::<u8, u8>::new(), BTreeSet::<u8>::new());
+}
